@@ -49,6 +49,8 @@ def run_check(ctx, pid, prop_mods, marks, text, design_ref):
                 failures.append({"case": r["line"], "check": "oracle", "detail": {"text": r["text"], "what": item},
                                  "guards": guards, "model_agrees": not r["dis"],
                                  "replay_how": "echo '<input>' | /verif/harness/target/debug/oq3-run tree"})
+    from . import incwrap as IW
+    IW.through_entry_points(ctx, pid, [r["text"] for r in recs], failures)
     sema_cov = {}
     if pid == "C12":
         sema_cov = sema_ranges(ctx, failures)
